@@ -18,7 +18,7 @@ def splitKey (k : Bytes) : Option (Bytes × Bytes) :=
     | none => none
   else none
 
-def hashWrites : List String := ["hset", "hsetnx", "hmset", "hdel", "hclear", "hexpire", "hpersist"]
+def hashWrites : List String := ["hset", "hsetnx", "hmset", "hdel", "hclear", "hexpire", "hpersist", "hincrby"]
 def hashReads : List String := ["hget", "hmget", "hlen", "hgetall", "hkeys", "hvals", "hexists", "hkeyexist", "httl"]
 
 def pairs : List Bytes → Option (List (Bytes × Bytes))
@@ -47,6 +47,7 @@ def hwrite (st : St) (ts : Int) (cmd : String) (key : Bytes) (rest : List Bytes)
       | .syntax => .queued st1 "err:notint"
       | .range => .queued st1 "err:numrange"
     | "hpersist", [] => fin (hpersist st.m ts table k)
+    | "hincrby", [f, dtxt] => fin (hincrbyCmd st.m ts table k f dtxt)
     | _, _ => .badop
 
 def bulk (b : Bytes) : String := "bulk:" ++ hexs b
@@ -142,29 +143,56 @@ def inv (st : St) : String :=
   | [] => "ok"
   | f :: _ => f
 
-def step (st : St) (line : String) : St × String :=
+/-- session state + the hash writes queued in the open apply event (`w <ts> 0 …` lines), in log order -/
+structure TSt where
+  st : St := {}
+  pend : List (Int × String × Bytes × List Bytes) := []
+  deriving Inhabited
+
+/-- the entries of one apply event, applied in log order; `none` if one of them is not modelled -/
+def applyEvent (st : St) : List (Int × String × Bytes × List Bytes) → Option (St × List String)
+  | [] => some (st, [])
+  | (t, cmd, key, rest) :: more =>
+    match hwrite st t cmd key rest with
+    | .queued st' r => (applyEvent st' more).map (fun p => (p.1, r :: p.2))
+    | _ => none
+
+def step (S : TSt) (line : String) : TSt × String :=
+  let st := S.st
+  let keep (p : St × String) : TSt × String := ({ S with st := p.1 }, p.2)
   match fields line with
-  | "open" :: fs => ({ now := parseNow fs }, "ok")
+  | "open" :: fs => ({ st := { now := parseNow fs } }, "ok")
   | ["end"] => ({}, "ok")
-  | ["inv"] => (st, inv st)
-  | ["dump"] => (st, let e := dumpKV st ++ dumpHash st; if e.isEmpty then "empty" else ";".intercalate e)
+  | ["inv"] => (S, inv st)
+  | ["dump"] => (S, let e := dumpKV st ++ dumpHash st; if e.isEmpty then "empty" else ";".intercalate e)
   | "w" :: ts :: b :: hexargs =>
-    if b != "1" then (st, "bad-op") else
     match ts.toInt?, hexargs.mapM unhex with
     | some t, some (name :: key :: rest) =>
       let cmd := lowerName name
-      if kvWrites.contains cmd then lineOf st (write st t cmd key rest)
-      else if hashWrites.contains cmd then lineOf st (hwrite st t cmd key rest)
-      else (st, "bad-op")
-    | _, _ => (st, "bad-op")
+      if hashWrites.contains cmd then
+        -- hash writes have no leader-side answer: a well-formed one is always `queued`; boundary `0` leaves the apply
+        -- event open, `1` applies every entry queued since the last boundary, in log order
+        match hwrite st t cmd key rest with
+        | .queued _ _ =>
+          if b == "0" then ({ S with pend := S.pend ++ [(t, cmd, key, rest)] }, "queued")
+          else if b == "1" then
+            match applyEvent st (S.pend ++ [(t, cmd, key, rest)]) with
+            | some (st', rs) => ({ st := st', pend := [] }, "queued => " ++ " | ".intercalate rs)
+            | none => (S, "bad-op")
+          else (S, "bad-op")
+        | _ => (S, "bad-op")
+      else if b != "1" || !S.pend.isEmpty then (S, "bad-op")   -- KV writes: one entry per apply event only
+      else if kvWrites.contains cmd then keep (lineOf st (write st t cmd key rest))
+      else (S, "bad-op")
+    | _, _ => (S, "bad-op")
   | "r" :: hexargs =>
     match hexargs.mapM unhex with
     | some (name :: key :: rest) =>
       let cmd := lowerName name
-      if kvReads.contains cmd then (st, read st cmd key rest)
-      else if hashReads.contains cmd then (st, hread st cmd key rest)
-      else (st, "bad-op")
-    | _ => (st, "bad-op")
-  | _ => (st, "bad-op")
+      if kvReads.contains cmd then (S, read st cmd key rest)
+      else if hashReads.contains cmd then (S, hread st cmd key rest)
+      else (S, "bad-op")
+    | _ => (S, "bad-op")
+  | _ => (S, "bad-op")
 
 end Drv.DataTTL
